@@ -695,6 +695,8 @@ func (x *Exec) execSwitch(n *ast.SwitchStmt, st *State, label string) *State {
 type modSet struct {
 	touched map[types.Object]bool // receivers / pointer or object arguments of calls: pointee and ghost state may change
 	partial map[types.Object]bool // only elements / fields stored (x[i] = v, x.f = v): header (len, nil-ness) unchanged
+	pfields map[types.Object]map[string]int // partial stores that all go through a first-level field: field name -> 1 (below the field: x.f[i] = v) | 2 (the field itself: x.f = v)
+	pall    map[types.Object]bool           // some partial store does not start with a field selection
 	vars   map[types.Object]bool
 	heap   map[string]bool
 	yields bool
@@ -702,7 +704,47 @@ type modSet struct {
 }
 
 func (x *Exec) modifiedIn(nodes ...ast.Node) *modSet {
-	ms := &modSet{vars: map[types.Object]bool{}, heap: map[string]bool{}, touched: map[types.Object]bool{}, partial: map[types.Object]bool{}}
+	ms := &modSet{vars: map[types.Object]bool{}, heap: map[string]bool{}, touched: map[types.Object]bool{}, partial: map[types.Object]bool{},
+		pfields: map[types.Object]map[string]int{}, pall: map[types.Object]bool{}}
+	// firstField: for a store target rooted at a variable, the first-level field it goes through ("" if none) and whether the store is below that field
+	firstField := func(e ast.Expr) (string, bool) {
+		var steps []string
+		for {
+			switch n := e.(type) {
+			case *ast.ParenExpr:
+				e = n.X
+				continue
+			case *ast.StarExpr:
+				e = n.X
+				continue
+			case *ast.IndexExpr:
+				steps = append(steps, "[]")
+				e = n.X
+				continue
+			case *ast.SliceExpr:
+				steps = append(steps, "[]")
+				e = n.X
+				continue
+			case *ast.SelectorExpr:
+				if sel := x.info.Selections[n]; sel != nil && sel.Kind() == types.FieldVal && len(sel.Index()) == 1 {
+					steps = append(steps, "."+n.Sel.Name)
+					e = n.X
+					continue
+				}
+				return "", false
+			case *ast.Ident:
+				if len(steps) == 0 {
+					return "", false
+				}
+				last := steps[len(steps)-1]
+				if last == "[]" {
+					return "", false
+				}
+				return last[1:], len(steps) > 1
+			}
+			return "", false
+		}
+	}
 	var rootOf func(e ast.Expr) (types.Object, []string)
 	rootOf = func(e ast.Expr) (types.Object, []string) {
 		switch n := e.(type) {
@@ -749,6 +791,20 @@ func (x *Exec) modifiedIn(nodes ...ast.Node) *modSet {
 				ms.vars[o] = true
 			} else {
 				ms.partial[o] = true
+				if f, deep := firstField(e); f != "" {
+					if ms.pfields[o] == nil {
+						ms.pfields[o] = map[string]int{}
+					}
+					lvl := 2
+					if deep {
+						lvl = 1
+					}
+					if ms.pfields[o][f] < lvl {
+						ms.pfields[o][f] = lvl
+					}
+				} else {
+					ms.pall[o] = true
+				}
 			}
 		}
 		for _, h := range hs {
@@ -820,6 +876,7 @@ func (x *Exec) modifiedIn(nodes ...ast.Node) *modSet {
 						if len(n.Args) > 0 {
 							if o, _ := rootOf(n.Args[0]); o != nil {
 								ms.partial[o] = true // contents change, header (len of slice / nil-ness) does not
+								ms.pall[o] = true
 							}
 						}
 					}
@@ -845,6 +902,43 @@ func (x *Exec) modifiedIn(nodes ...ast.Node) *modSet {
 		})
 	}
 	return ms
+}
+
+// fieldwise keeps the fields of a struct that no store in the loop goes through:
+// only the fields named in pf are taken from the fresh value nv (keeping the
+// header of a slice / nil-ness of a pointer when every store is below the field).
+func fieldwise(old, nv Val, pf map[string]int, all bool) Val {
+	os, ok1 := old.(St)
+	ns, ok2 := nv.(St)
+	if all || !ok1 || !ok2 || len(pf) == 0 || os.T == nil {
+		return nv
+	}
+	out := St{make([]Val, len(os.F)), os.T}
+	for i := range os.F {
+		lvl := pf[os.T.Field(i).Name()]
+		switch lvl {
+		case 0:
+			out.F[i] = os.F[i]
+		case 2:
+			out.F[i] = ns.F[i]
+		default:
+			switch ov := os.F[i].(type) {
+			case Sl:
+				n := ns.F[i].(Sl)
+				out.F[i] = Sl{n.Arr, ov.Off, ov.Len, ov.Nil, ov.Elem}
+			case Pt:
+				n := ns.F[i].(Pt)
+				out.F[i] = Pt{ov.Nil, n.Elem, ov.T}
+			case Mp:
+				n := ns.F[i].(Mp)
+				n.Nil = ov.Nil
+				out.F[i] = n
+			default:
+				out.F[i] = ns.F[i]
+			}
+		}
+	}
+	return out
 }
 
 // havoc replaces every possibly-modified variable by a fresh value.
@@ -892,7 +986,9 @@ func (x *Exec) havoc(st *State, ms *modSet, hint string) {
 			st.vars[o] = Sl{n.Arr, ov.Off, ov.Len, ov.Nil, ov.Elem}
 		case Pt:
 			n := nv.(Pt)
-			st.vars[o] = Pt{ov.Nil, n.Elem, ov.T}
+			st.vars[o] = Pt{ov.Nil, fieldwise(ov.Elem, n.Elem, ms.pfields[o], ms.pall[o] || ms.touched[o]), ov.T}
+		case St:
+			st.vars[o] = fieldwise(ov, nv, ms.pfields[o], ms.pall[o] || ms.touched[o])
 		case Mp:
 			n := nv.(Mp)
 			n.Nil = ov.Nil
